@@ -235,6 +235,16 @@ def c16_meta(R):
         "split-overloads": ('import "half-overload-set";\nfunction choose(float a) -> int { return 200; }\nexport function f(int x) -> int { return choose(x); }', None),
         "split-overloads-local-exact": ('import "half-overload-set";\nfunction choose(float a) -> int { return 200; }\nexport function f(float x) -> int { return choose(x); }', None),
     }
+    # a function that is imported AND defined again with the same signature is two definitions of one function: rejected (C16), split or not
+    dup_lib = "export function price(int a) -> int { return (a * 2); }"
+    r, exc = compile_with(dup_lib, ld)
+    if r is not None:
+        ld.AddModule("pricing", r.IRModule)
+    for lab, src in (("imported+local", 'import "pricing";\nfunction price(int a) -> int { return (a * 3); }\nexport function total(int x) -> int { return price(x); }'),
+                     ("one-module", 'export function price(int a) -> int { return (a * 2); }\nfunction price(int a) -> int { return (a * 3); }\nexport function total(int x) -> int { return price(x); }')):
+        r2, exc2 = compile_with(src, ld)
+        R.check(f"C16.meta.duplicate-definition[{lab}]", "nsl.types::Scope.RegisterFunction", r2 is None,
+                detail=f"`price(int) -> int` is defined twice ({lab}) and called, but the program was accepted:\n{src}")
     for name, (src, callee) in mains.items():
         r, exc = compile_with(src, ld)
         rp = None
